@@ -143,13 +143,17 @@ def spline(potential_forms, potential_form_builder):
   pot1 = pform._replace(next = None)
   pot2 = pform.next._replace(next = None)
 
+  # A sub-potential may itself be a modifier, which has a 'modifier' label rather than a 'potential_form'
+  def form_label(pot):
+    return getattr(pot, 'potential_form', getattr(pot, 'modifier', None))
+
   allowed_spline_types = [s.spline_keyword for s in spline_factories]
-  if not pot2.potential_form in allowed_spline_types:
+  if not form_label(pot2) in allowed_spline_types:
     allowed_spline_types_str = ["'{}'".format(t) for t in allowed_spline_types]
     allowed_spline_types_str = ",".join(allowed_spline_types_str)
     raise ConfigurationException("spline modifier only accepts spline types {} for middle potential form. '{}' was found instead".format(
       allowed_spline_types_str,
-      pot2.potential_form))
+      form_label(pot2)))
 
   if pform.next.next is None:
     raise ConfigurationException("spline modifier requires three sub-potentials to be defined only two specified.")
@@ -187,9 +191,9 @@ def spline(potential_forms, potential_form_builder):
   spline_factory = [s for s in spline_factories if s.spline_keyword == pot2.potential_form ][0]
 
   logger.debug("spline modifier: connecting '{}' with {} to '{}' in range {} to {}".format(
-    pot1.potential_form,
-    pot2.potential_form,
-    pot2.potential_form,
+    form_label(pot1),
+    form_label(pot2),
+    form_label(pot3),
     detach_point, attach_point))
 
   # Now build the spline object
